@@ -917,7 +917,7 @@ def origin_of_operand(body, op, through_calls=True, max_steps=4000, stop_calls=(
     seen = set()
     work = deque()
 
-    def push_place(pl):
+    def push_place(pl, inherited=()):
         for f in place_fields(pl):
             o.fields.add(f)
         for p in pl[1:]:
@@ -932,22 +932,28 @@ def origin_of_operand(body, op, through_calls=True, max_steps=4000, stop_calls=(
                     parts = nm.split("__")
                     for comp in parts[1:]:
                         o.fields.add(("<captured %s>" % parts[0], comp))
-        # field selection directly on the local (before any deref): `_t.1`, `(_e as Some).0`
-        sel = None
+        # field selection directly on the local (before any deref): `_t.1`, `(_e as Some).0`, `((_r as Ok).0).1`.
+        # A selection PATH is carried through plain moves, aggregates and pass-through calls, so that the second
+        # component of a tuple returned through `Ok(..)?` is not confused with the first.
+        own = []
+        clean = True
         for p in pl[1:]:
             if p == "*":
+                clean = False
                 break
             if isinstance(p, list) and p[0] == "f":
-                sel = p[1]
-                break
+                own.append(p[1])
+                continue
             if isinstance(p, list) and p[0] == "v":
                 continue
+            clean = False
             break
-        work.append((pl[0], sel))
+        path = tuple(own) + (tuple(inherited) if clean else ())
+        work.append((pl[0], path))
 
-    def push_op(op):
+    def push_op(op, inherited=()):
         if op[0] in ("c", "m"):
-            push_place(op[1])
+            push_place(op[1], inherited)
         elif op[0] == "k":
             o.consts.append(op[1])
 
@@ -959,7 +965,9 @@ def origin_of_operand(body, op, through_calls=True, max_steps=4000, stop_calls=(
         if item in seen:
             continue
         seen.add(item)
-        l, sel = item
+        l, path = item
+        sel = path[0] if path else None
+        rest = path[1:] if path else ()
         steps += 1
         if steps > max_steps:
             o.unknown = True
@@ -976,11 +984,13 @@ def origin_of_operand(body, op, through_calls=True, max_steps=4000, stop_calls=(
             if d[0] == "assign":
                 rv = d[3]
                 k = rv[0]
-                if len(d) > 4 and sel is not None:
+                inh = path
+                if len(d) > 4:
                     # projection assignment `_l.f = ...`: only relevant if it writes the selected field
                     wf = [p[1] for p in d[4][1:] if isinstance(p, list) and p[0] == "f"]
-                    if wf and wf[0] != sel:
+                    if sel is not None and wf and wf[0] != sel:
                         continue
+                    inh = rest if (sel is not None and wf and len(wf) == 1) else ()
                 if k == "ref":
                     push_place(rv[2])
                 elif k == "ptr":
@@ -990,7 +1000,7 @@ def origin_of_operand(body, op, through_calls=True, max_steps=4000, stop_calls=(
                     if k == "discr":
                         o.ops.add("discr")
                 elif k in ("use", "repeat"):
-                    push_op(rv[1])
+                    push_op(rv[1], inh if k == "use" else ())
                 elif k == "cast":
                     push_op(rv[2])
                 elif k == "bin":
@@ -1005,7 +1015,7 @@ def origin_of_operand(body, op, through_calls=True, max_steps=4000, stop_calls=(
                         o.aggs.append(rv[3])
                     ops_ = rv[2]
                     if sel is not None and len(d) <= 4 and rv[1] in ("tuple", "adt", "closure", "coroutine") and sel < len(ops_):
-                        push_op(ops_[sel])
+                        push_op(ops_[sel], rest)
                     else:
                         for x in ops_:
                             push_op(x)
@@ -1022,8 +1032,16 @@ def origin_of_operand(body, op, through_calls=True, max_steps=4000, stop_calls=(
                 elif through_calls:
                     if set(c.targets) & PASS_THROUGH or any(
                             strip_generics(c.callee.get("p", "")) == p for p in PASS_THROUGH):
+                        pn = strip_generics(c.callee.get("p", "")).split("::")[-1]
                         for a in c.args[:1]:
-                            push_op(a)
+                            if not path:
+                                push_op(a)
+                            elif pn in ("unwrap", "expect"):
+                                push_op(a, (0,) + tuple(path))
+                            elif pn in ("branch", "clone", "deref", "deref_mut", "as_ref", "as_mut", "borrow", "into", "from", "to_owned", "cloned", "copied", "as_deref"):
+                                push_op(a, path)
+                            else:
+                                push_op(a)
     return o
 
 
@@ -1500,11 +1518,13 @@ def comparisons(body):
 
 def bool_edges(body, local, start_bb):
     """{succ: frozenset({True|False})} for the switch consuming boolean `local` (through
-    moves and `!`), searching forward from start_bb; also returns the switch block."""
+    moves, `!`, and tuples that are matched on: `match (a, b)` switches on `_t.0`), searching forward from start_bb
+    along single successors (calls that do not redefine the value are stepped over); also returns the switch block."""
     neg = {local: False}
+    tup = {}
     cur = start_bb
     seen = set()
-    while cur is not None and cur not in seen and len(seen) < 8:
+    while cur is not None and cur not in seen and len(seen) < 12:
         seen.add(cur)
         bl = body.blocks[cur]
         for st in bl["s"]:
@@ -1513,16 +1533,28 @@ def bool_edges(body, local, start_bb):
             rv = st[2]
             if rv[0] == "use" and rv[1][0] in ("c", "m") and len(rv[1][1]) == 1 and rv[1][1][0] in neg:
                 neg[st[1][0]] = neg[rv[1][1][0]]
+            elif rv[0] == "use" and rv[1][0] in ("c", "m") and len(rv[1][1]) == 2 and isinstance(rv[1][1][1], list) and rv[1][1][1][0] == "f" \
+                    and (rv[1][1][0], rv[1][1][1][1]) in tup:
+                neg[st[1][0]] = tup[(rv[1][1][0], rv[1][1][1][1])]
             elif rv[0] == "un" and rv[1] == "Not" and rv[2][0] in ("c", "m") and rv[2][1][0] in neg:
                 neg[st[1][0]] = not neg[rv[2][1][0]]
+            elif rv[0] == "agg" and rv[1] == "tuple":
+                for k, op_ in enumerate(rv[2]):
+                    if op_[0] in ("c", "m") and len(op_[1]) == 1 and op_[1][0] in neg:
+                        tup[(st[1][0], k)] = neg[op_[1][0]]
         t = bl["t"]
-        if t[0] == "switch" and t[1][0] in ("c", "m") and t[1][1][0] in neg:
-            n = neg[t[1][1][0]]
+        n = None
+        if t[0] == "switch" and t[1][0] in ("c", "m"):
+            pl = t[1][1]
+            if len(pl) == 1 and pl[0] in neg:
+                n = neg[pl[0]]
+            elif len(pl) == 2 and isinstance(pl[1], list) and pl[1][0] == "f" and (pl[0], pl[1][1]) in tup:
+                n = tup[(pl[0], pl[1][1])]
+        if n is not None:
             res = {}
             for v, x in t[2]:
                 val = (v != "0") != n
                 res[x] = frozenset(res.get(x, frozenset()) | {val})
-            oth = (not any(v != "0" for v, _ in t[2])) != n if True else None
             # otherwise-arm: if the listed value is 0 the otherwise arm means "true"
             listed_zero = any(v == "0" for v, _ in t[2])
             oval = (True if listed_zero else False) != n
@@ -1530,6 +1562,13 @@ def bool_edges(body, local, start_bb):
             return res, cur
         if t[0] in ("goto", "falseedge", "falseunwind", "drop"):
             cur = body.succ[cur][0] if body.succ[cur] else None
+            continue
+        if t[0] == "call" and body.succ[cur]:
+            c = body.call_at.get(cur) if hasattr(body, "call_at") and isinstance(body.call_at, dict) else None
+            dest = c.dest if c is not None else None
+            if dest is not None and len(dest) == 1 and (dest[0] in neg or any(dest[0] == tl for tl, _ in tup)):
+                return None, None
+            cur = body.succ[cur][0]
             continue
         return None, None
     return None, None
